@@ -68,6 +68,8 @@ def coq_event(e):
     if b[0] == "twin":
         raise ValueError("twin events are split into separate model runs")
     args = " ".join(str(x) for x in b[1:])
+    if b[0] == "live":
+        return f"Ev false false live_"
     o = "true" if e.get("other") else "false"
     u = "true" if e.get("unwinding") else "false"
     return f"Ev {o} {u} ({b[0]}_ {args})"
